@@ -249,10 +249,7 @@ fn any_fixed<'a>(cur: &'a [u8]) -> (EbpfVmFixedMbuff<'a>, u8) {
     let (parent, vk) = any_vm(cur);
     let (d, e): (usize, usize) = (kani::any(), kani::any());
     kani::assume(d <= 120 && e <= 120); // BOUNDED
-    let mut buffer = std::vec![0u8; buff_len(d, e)];
-    // earlier executions (and earlier programs) may have left anything in the buffer
-    let mut k = 0;
-    while k < buffer.len() { buffer[k] = kani::any(); k += 1; }
+    let buffer = std::vec![0u8; buff_len(d, e)];
     (EbpfVmFixedMbuff { parent, mbuff: MetaBuff { data_offset: d, data_end_offset: e, buffer } }, vk)
 }
 fn all_zero(b: &[u8]) -> bool { let mut ok = true; let mut k = 0; while k < b.len() { if b[k] != 0 { ok = false; } k += 1; } ok }
@@ -278,6 +275,10 @@ fn bounded_fixed_set_program() {
     let (p1, p2): ([u8; 8], [u8; 8]) = (kani::any(), kani::any());
     let (mut vm, vk) = any_fixed(&p1);
     kani::assume(fixed_inv(&vm, vk));
+    // earlier executions (and earlier programs) may have left anything in the buffer: one arbitrary byte at an
+    // arbitrary place stands for it
+    let dirty: usize = kani::any();
+    if dirty < vm.mbuff.buffer.len() { vm.mbuff.buffer[dirty] = kani::any(); }
     let before = fixed_view(&vm);
     let before_buf = vm.mbuff.buffer.clone();
     let (d, e): (usize, usize) = (kani::any(), kani::any());
